@@ -3506,10 +3506,19 @@ impl LuaCommandAdapter {
         args: Vec<String>,
         db_index: usize,
     ) -> Result<RespFrame> {
-        // Convert string args to RESP frames for parsing
+        self.execute_lua_command_bytes(args.into_iter().map(String::into_bytes).collect(), db_index)
+    }
+    
+    /// Same, with the arguments as the byte strings they are in Lua
+    pub fn execute_lua_command_bytes(
+        &self,
+        args: Vec<Vec<u8>>,
+        db_index: usize,
+    ) -> Result<RespFrame> {
+        // Convert args to RESP frames for parsing
         let frames: Vec<RespFrame> = args
             .into_iter()
-            .map(|s| RespFrame::bulk_string(s))
+            .map(RespFrame::from_bytes)
             .collect();
         
         let mut parsed = CommandParser::parse(&frames)?;
